@@ -80,14 +80,15 @@ def _writers(ctx: Ctx, c: Collector) -> None:
 
 def _cycle_check(ctx: Ctx, c: Collector) -> None:
     fi = ctx.func(CYC)
-    s = ctx.summ(CYC)
+    s = ctx.spliced(CYC)
     me = T.var(fi.params[0])
     allsims = call(("attr", ("attr", me, "sims"), "values"))
     loc = fi.loc
-    stores = [e for e in s.of_kind("store") if e.term[1][0] == "idx" and e.term[1][1][0] == "idx" and e.term[1][1][1][0] == "var"]
+    full_t = {e.idx: unalias(e.term[1], s, fi) for e in s.of_kind("store")}
+    stores = [e for e in s.of_kind("store") if full_t[e.idx][0] == "idx" and full_t[e.idx][1][0] == "idx" and full_t[e.idx][1][1][0] == "var"]
     if not stores:
         raise AnalysisError("R19: no store into a descendant table found in ensure_no_dataflow_cycles")
-    table = stores[0].term[1][1][1]
+    table = full_t[stores[0].idx][1][1]
     seeds = [e for e in stores if not any(i[1] == ("while",) for i in e.iters)]
     closes = [e for e in stores if any(i[1] == ("while",) for i in e.iters)]
     # --- seeding
@@ -103,11 +104,11 @@ def _cycle_check(ctx: Ctx, c: Collector) -> None:
             ok = dec is not None and dec[0] == ("attr", simv, "input_delays") and dec[3] == "items"
             if ok:
                 pred, delay = dec[1], dec[2]
-                tgt_ok = e.term[1] == ("idx", ("idx", table, pred), simv)
+                tgt_ok = full_t[e.idx] == ("idx", ("idx", table, pred), simv)
                 val = e.term[2]
                 val_ok = val[0] == "tuple" and len(val[1]) == 2 and val[1][0] == delay and val[1][1][0] == "bag" and [x[1] for x in val[1][1][1]] == [pred, simv]
                 if not tgt_ok:
-                    pr.append(f"seeding stores into {T.show(e.term[1])} instead of descendants[pred][sim]")
+                    pr.append(f"seeding stores into {T.show(full_t[e.idx])} instead of descendants[pred][sim]")
                 if not val_ok:
                     pr.append(f"seeding stores {T.show(val)[:100]} instead of (delay, [pred, sim])")
         if not ok:
@@ -139,7 +140,7 @@ def _cycle_check(ctx: Ctx, c: Collector) -> None:
             # outer: (src, src_to_mid) in mid.input_delays.items(); inner: (dest, (mid_to_dest, path)) in table[mid].items()
             ok = d0 is not None and d0[0][0] == "attr" and d0[0][2] == "input_delays" and d0[3] == "items"
             mid = d0[0][1] if ok else None
-            inner_src = T.strip(d1[2])
+            inner_src = unalias(T.strip(d1[2]), s, fi)
             ok = ok and inner_src == call(("attr", ("idx", table, mid), "items"))
             ok = ok and d1[1][0] == "tuple" and len(d1[1][1]) == 2 and d1[1][1][1][0] == "tuple" and len(d1[1][1][1][1]) == 2
             if not ok:
@@ -164,15 +165,17 @@ def _cycle_check(ctx: Ctx, c: Collector) -> None:
                             pr.append("operands of the path sum are swapped (mid->dest + src->mid): TieredInterval addition is not commutative")
                         else:
                             pr.append(f"the combined delay is {T.show(um[2][1])[:80]} instead of src->mid + mid->dest")
-                    old = um[2][0]
-                    if not T.contains(old, call(("attr", ("idx", table, srcv), "get"), destv, ("tuple", (T.NONE,)))) and not T.contains(old, ("idx", ("idx", table, srcv), destv)):
+                    old = unalias(um[2][0], s, fi)
+                    reads_entry = any((x[0] == "call" and x[1] == ("attr", ("idx", table, srcv), "get") and x[2][:1] == (destv,)) or x == ("idx", ("idx", table, srcv), destv)
+                                      for x in T.subterms(old))
+                    if not reads_entry:
                         pr.append("update_min does not compare with the existing entry descendants[src][dest]")
-                if e.term[1] != ("idx", ("idx", table, srcv), destv):
-                    pr.append(f"the result is stored in {T.show(e.term[1])} instead of descendants[src][dest]")
+                if full_t[e.idx] != ("idx", ("idx", table, srcv), destv):
+                    pr.append(f"the result is stored in {T.show(full_t[e.idx])} instead of descendants[src][dest]")
                 if not (val[0] == "tuple" and len(val[1]) == 2 and val[1][1] == ("bag", (("elem", srcv, (), ()),) + (), "list") or (val[0] == "tuple" and len(val[1]) == 2 and val[1][1][0] == "op" and val[1][1][1] == "+" and T.contains(val[1][1], path) and T.contains(val[1][1], srcv))):
                     pr.append("the stored path is not [src] + path")
                 # re-queue src under the same condition
-                adds = [x for x in s.of_kind("call") if dirty is not None and x.term[1] == ("attr", dirty, "add") and x.guards == e.guards and x.iters == e.iters]
+                adds = [x for x in s.of_kind("call") if dirty is not None and x.term[1] == ("attr", dirty, "add") and x.iters == e.iters and guards_equiv(x.guards, e.guards)]
                 if not adds or adds[0].term[2] != (srcv,):
                     pr.append("the predecessor whose descendants changed is not put back on the worklist")
     c.add("closure", CYC, "worklist closure: src->mid + mid->dest through update_min, re-queue src", VIOLATED if pr else DISCHARGED, "; ".join(pr), loc)
@@ -237,7 +240,7 @@ def _cycle_check(ctx: Ctx, c: Collector) -> None:
 
 def _ancestors(ctx: Ctx, c: Collector) -> None:
     fi = ctx.func(ANC)
-    s = ctx.summ(ANC)
+    s = ctx.spliced(ANC)
     stores = [e for e in s.of_kind("store") if e.term[1][0] == "idx" and e.term[1][1][0] == "attr" and e.term[1][1][2] == "triggering_ancestors"]
     seeds = [e for e in stores if not any(i[1] == ("while",) for i in e.iters)]
     closes = [e for e in stores if any(i[1] == ("while",) for i in e.iters)]
@@ -287,7 +290,7 @@ def _ancestors(ctx: Ctx, c: Collector) -> None:
                         pr.append(f"combined trigger delay is {T.show(um)[:100]} instead of update_min(existing, src->mid + mid->dest)")
                 if e.term[1] != ("idx", ("attr", destv, "triggering_ancestors"), srcv):
                     pr.append(f"the result is stored in {T.show(e.term[1])}")
-                adds = [x for x in s.of_kind("call") if x.term[1][0] == "attr" and x.term[1][2] == "add" and x.iters == e.iters and x.guards == e.guards]
+                adds = [x for x in s.of_kind("call") if x.term[1][0] == "attr" and x.term[1][2] == "add" and x.iters == e.iters and guards_equiv(x.guards, e.guards)]
                 if not adds or adds[0].term[2] != (destv,):
                     pr.append("the simulator whose ancestors changed is not put back on the worklist")
             else:
@@ -369,7 +372,9 @@ def _interval(ctx: Ctx, c: Collector) -> None:
         chain = look.term[1][1]
         if chain[0] == "bag":
             els = chain[1]
-            ok_chain = len(els) == 2 and els[0][1] == srcp and not els[0][3] and els[1][1] == ("attr", srcp, "parent") and any(i[1] == ("while",) for i in els[1][3])
+            walkers = {srcp} | {e.term[1] for e in gs.of_kind("bind") if e.term[2] == srcp and not e.iters}
+            ok_chain = len(els) == 2 and els[0][1] == srcp and not els[0][3] and els[1][1][0] == "attr" and els[1][1][2] == "parent" and els[1][1][1] in walkers \
+                and any(i[1] == ("while",) and T.strip(i[2]) == ("attr", els[1][1][1], "parent") for i in els[1][3])
             if not ok_chain:
                 pr.append("the source's ancestor chain is not [src] extended by every parent")
         else:
